@@ -468,7 +468,7 @@ func init() {
 	core.RegisterWorker("c14synth", synthWorker)
 	core.Register(&core.Prop{
 		ID: "C14", Level: "model_checking", Run: run, Replay: replay,
-		Rule: "(a) every package-scope function and every declared method of every package of the real closure of github.com/octohelm/gengo/... (std included) - thorough: also of the closure of a module importing 15 further std packages (net/http, crypto/tls, database/sql, html/template, encoding/xml, ...) - analysed in supervised child processes (fatal stack overflow = violation at that unit, child restarted after it); (b) every synthetic program of the grammar: <=3 functions, result shapes {T, (T,error), (T,U,error), named}, return forms {literals, nil, literal expressions, several returns under if/switch, call, forwarding return f(), assign-then-return, bare return after assignment, closure argument with more/fewer results than the callee, interface method, other package}, all call targets incl. self and mutual recursion. Oracle: no crash, declared arity, n non-empty lists, every alternative constant or assignable type, same answer twice, literal-only functions give exactly the literals in source order. Non-trivial = functions with results; states = distinct (arity, #alternatives)",
+		Rule: "(a) every package-scope function and every declared method of every package of the real closure of github.com/octohelm/gengo/... (std included) - thorough: also of the closure of a module importing 15 further std packages (net/http, crypto/tls, database/sql, html/template, encoding/xml, ...) - analysed in supervised child processes (fatal stack overflow = violation at that unit, child restarted after it); (b) every synthetic program of the grammar: <=3 functions, result shapes {T, (T,error), (T,U,error), named}, return forms {literals, nil, literal expressions, several returns under if/switch, call, forwarding return f(), assign-then-return, bare return after assignment, closure argument with more/fewer results than the callee, interface method, other package}, all call targets incl. self and mutual recursion. Oracle: no crash, declared arity, n non-empty lists, every alternative constant or assignable type, same answer twice and in a second universe queried in reverse order, literal-only functions give exactly the literals in source order. Non-trivial = functions with results; states = distinct (arity, #alternatives)",
 		Assumptions: []string{
 			"assignability involving type parameters or instantiated generic types is not judged (go/types cannot decide it outside the declaring scope)",
 			"one pinned corpus: the dependency closure of /repo under the pinned toolchain",
